@@ -364,6 +364,27 @@ pub fn c04_scenarios(ns: &[u64]) -> Vec<Scn> {
         s.slow = 1;
         out.push(s);
     }
+    // two producers: the loser of the head CAS lands on the next slot, which a
+    // consumer of a shared stream may still be cloning from
+    for &n in ns {
+        if n < 2 {
+            continue;
+        }
+        let b = q(Flavour::B, n, WaitK::Busy);
+        let mut s = Scn::new("c04-two-producers-vs-shared-clone", b);
+        s.prefix = vec![opd(CloneH, S0, S1)];
+        s.prefix.extend(prep(St::Full, n, &[R0]));
+        s.prefix.extend((0..n - 1).map(|_| op(TryRecv, R0)));
+        s.prefix.push(opd(CloneH, R0, R1));
+        s.threads = vec![
+            vec![op(TryRecv, R0)],
+            vec![op(TryRecv, R1)],
+            vec![opv(TrySend, S0, 1)],
+            vec![opv(TrySend, S1, 11)],
+        ];
+        s.slow = 2;
+        out.push(s);
+    }
     for s in out.iter_mut() {
         s.tags = &["C04", "C05"];
         s.hang_prop = "C04";
@@ -486,6 +507,34 @@ pub fn c07_scenarios(ns: &[u64], thorough: bool) -> Vec<Scn> {
             }
         }
     }
+    // blocked and parked consumers must see the end when the last two senders
+    // leave at the same time
+    for fl in flavours() {
+        for w in [WaitK::Block(0, 0), WaitK::Busy] {
+            let cfg = q(fl, 1, w);
+            let mut s = Scn::new("c07-two-senders-leave-vs-blocked-recv", cfg);
+            s.prefix = vec![opd(CloneH, S0, S1)];
+            s.threads = vec![
+                vec![opv(TrySend, S0, 1), op(DropH, S0)],
+                vec![op(DropH, S1)],
+                vec![op(RecvAll, R0)],
+            ];
+            s.post = Post::Drain;
+            out.push(s);
+        }
+    }
+    {
+        let cfg = qf(Flavour::B, 1, (0, 0));
+        let mut s = Scn::new("c07-two-senders-leave-vs-parked-stream", cfg);
+        s.prefix = vec![opd(CloneH, S0, S1)];
+        s.threads = vec![
+            vec![opv(TrySend, S0, 1), op(DropH, S0)],
+            vec![op(DropH, S1)],
+            vec![op(StreamAll, R0)],
+        ];
+        s.post = Post::Drain;
+        out.push(s);
+    }
     // futures: poll vs last send + drop
     for &n in ns {
         let cfg = qf(Flavour::B, n, (0, 0));
@@ -544,6 +593,15 @@ pub fn c08_scenarios(ns: &[u64], waits: &[WaitK]) -> Vec<Scn> {
                 s.threads = vec![
                     vec![opv(SendRetry, S0, 1), opv(SendRetry, S0, 2), op(DropH, S0)],
                     vec![op(IterAll, R0)],
+                ];
+                out.push(s);
+                // the last two sender handles leave at the same time
+                let mut s = Scn::new("c08-two-senders-leave-vs-blocked-recv", cfg);
+                s.prefix = vec![opd(CloneH, S0, S1)];
+                s.threads = vec![
+                    vec![opv(TrySend, S0, 1), op(DropH, S0)],
+                    vec![op(DropH, S1)],
+                    vec![op(RecvAll, R0)],
                 ];
                 out.push(s);
                 if fl == Flavour::B {
@@ -888,6 +946,15 @@ pub fn c14_scenarios(ns: &[u64], spins: &[(usize, usize)]) -> Vec<Scn> {
                 vec![op(StreamAll, R0)],
             ];
             out.push(s);
+            // the last two senders leave at the same time while a stream task is parked
+            let mut s = Scn::new("c14-two-senders-leave-vs-parked-stream", cfg);
+            s.prefix = vec![opd(CloneH, S0, S1)];
+            s.threads = vec![
+                vec![opv(SinkSend, S0, 1), op(DropH, S0)],
+                vec![op(DropH, S1)],
+                vec![op(StreamAll, R0)],
+            ];
+            out.push(s);
             // single-consumer futures receiver
             let mut s = Scn::new("c14-sink-uni-stream", cfg);
             s.prefix = vec![op(IntoSingle, R0)];
@@ -1048,7 +1115,15 @@ fn policy(s: &Scn, thorough: bool) -> (u32, usize) {
             (0..=2, false) => (3, 1),
             (0..=2, true) => (2, 1),
             (3, false) => (2, 2),
-            (3, true) => (1, 1),
+            (4, false) if s.threads.iter().all(|t| t.len() == 1) => (2, 4),
+            (3, true) => {
+                let ops: usize = s.threads.iter().map(|t| t.len()).sum();
+                if ops <= 4 {
+                    (2, 2)
+                } else {
+                    (1, 1)
+                }
+            }
             _ => (1, 1),
         }
     } else {
